@@ -228,6 +228,13 @@ def run(ctx):
     ctx.floor("kernel bindings in mutate", n_bind, 3)
 
     temp_rule(ctx)
+    # ---- evaluating the target leaves the kernel's point alone: neither the samplers' log_prob nor the preconditioning transform it
+    #      calls writes into the array handed in (the kernel would continue from a point other than the one whose density it was given)
+    from ..report import reuse as _reuse
+    from . import c10 as _c10
+    for mod_ in ("aspire.transforms", "aspire.samplers"):
+        _reuse(ctx, lambda c, mod_=mod_: _c10.own_rule(c, only_module=mod_), ("C10.own",), "C05own",
+               "ownership rule shared with C10: the density returned for z must be the density of the z the kernel still holds")
     from . import cachecoh
     cachecoh.rule(ctx, "C05.stale", ("aspire.samplers",),
                   "a kernel target compiled or cached once keeps the preconditioning map, proposal and callables of the moment it was built: later iterations "
@@ -316,6 +323,10 @@ MUTANTS += [
 MUTANTS += [
     M("kernel target compiled once and kept across iterations", "src/aspire/samplers/smc/blackjax.py", "log_prob_fn = partial(self._jax_log_prob, beta=beta)",
       "if getattr(self, \"_compiled\", None) is None:\n            self._compiled = jax.jit(self._jax_log_prob)\n        log_prob_fn = partial(self._compiled, beta=beta)", "C05.stale"),
+]
+MUTANTS += [
+    M("composite inverse coerces its input instead of copying it", "src/aspire/transforms.py", "def inverse(self, x):\n        x = copy_array(x, xp=self.xp)\n        x = self.xp.atleast_2d(x)",
+      "def inverse(self, x):\n        x = self.xp.asarray(x)\n        x = self.xp.atleast_2d(x)", "C05own.own"),
 ]
 NEUTRALS = [
     M("kernel target compiled afresh in every mutation step", "src/aspire/samplers/smc/blackjax.py", "log_prob_fn = partial(self._jax_log_prob, beta=beta)",
